@@ -107,6 +107,12 @@ def judge(ctx, ast, sp, T, vi, v):
                                e1.cell_desc(ast, sp, vi, v), cost)
             return
     else:
+        if out[0].startswith('raw:'):
+            # "in every other case it raises ConvertError": a non-member that makes anything else come out is a wrong answer too
+            core.add_violation(res, {'kind': 'nonmember_raises_other_exception', 'root': root, 'exc': out[0][4:], 'site': core.site_of(out[1])},
+                               f"from_data({values.expr(v)}, {grammar.render(ast)} [{T!r}]) raised {out[0][4:]}: {core.sstr(out[1], 120)} - the value is "
+                               f"not a member ({r[1]}), which calls for ConvertError", e1.cell_desc(ast, sp, vi, v), cost)
+            return
         if out[0] == 'ok':
             core.add_violation(res, {'kind': 'accepts_nonmember', 'root': root, 'vkind': vk, 'leaves': leaves},
                                f"from_data({values.expr(v)}, {grammar.render(ast)} [{T!r}]) returned {core.srepr(out[1])} but the "
